@@ -413,7 +413,19 @@ func TestVerif_Adapter(t *testing.T) {
 			if !vThorough() && len(c.Segs) >= 4 && (np+int(vSeed()))%4 != 0 {
 				continue
 			}
-			start := "/" + strings.Join(c.Start, "/")
+			// the configured start directory may be written in any form that denotes the same segments: absolute and
+			// clean, relative, empty, with dot segments or a trailing slash, or climbing above the root
+			var start string
+			switch np % 4 {
+			case 0:
+				start = "/" + strings.Join(c.Start, "/")
+			case 1:
+				start = strings.Join(c.Start, "/")
+			case 2:
+				start = "/./" + strings.Join(c.Start, "/./") + "/"
+			default:
+				start = "../" + strings.Join(c.Start, "/")
+			}
 			a := sessions[start]
 			if a == nil {
 				a = newAdSession(t, tr, start, "opvlk") // no RealPath resolver: REALPATH would bypass cleaning by design
